@@ -72,6 +72,11 @@ def gen_hist_cases(tier):
             if cfg.priv == 0 or thorough or (cfg.auth, cfg.priv) in ((2, 2), (1, 1)):
                 for h in step_sequences(depth if (cfg.auth, cfg.priv) in ((0, 0), (2, 2)) else depth - 1):
                     yield {"class": "steps", "cfgs": [c.describe()], "history": pre + h}
+    # real time passing between messages: the stamps stay those of the last accepted message
+    for cfg in (Cfg("v3", auth=1), Cfg("v3", auth=2, priv=2), Cfg("v3", auth=2, priv=1, discover=True)):
+        pre = [["discover", 0, 0]] if cfg.discover else []
+        h = pre + [["get", 0, "sys"], ["reply", 0, "ok", 4], ["sleep", 0, 1.15], ["get", 0, "sys"], ["timeout", 0], ["sleep", 0, 1.15], ["refresh", 0], ["reply", 0, "report", 1], ["get_many", 0, "pair"]]
+        yield {"class": "slow", "cfgs": [cfg.describe()], "history": h}
     # discovery variants x key types (mixed) x engine-id lengths
     kts = [(0, 0), (1, 1), (2, 2), (0, 1), (0, 2), (1, 0), (2, 0), (1, 2), (2, 1)]
     tail = [["get", 0, "sys"], ["reply", 0, "ok", 3], ["get_many", 0, "pair"], ["reply", 0, "ok", 5], ["refresh", 0], ["reply", 0, "report", 1], ["getbulk", 0, "sys", 3]]
@@ -377,7 +382,9 @@ def run(tier):
         "reference session model: engine id fixed by the first accepted message; boots/time = those of the most recent accepted message; keys localized to the learned engine id",
         "a localized key is configured for the agent's real engine id even when that id is then discovered (the public clients accept this combination)",
     )
-    common.run_cases(rec, work_hist, list(gen_hist_cases(tier)), chunk=80)
+    hist = list(gen_hist_cases(tier))
+    common.run_cases(rec, work_hist, [c for c in hist if c.get("class") == "slow"], chunk=1)
+    common.run_cases(rec, work_hist, [c for c in hist if c.get("class") != "slow"], chunk=80)
     common.run_cases(rec, work_public, list(gen_public(tier)), chunk=8)
     n = rec.counters["cases"]
     return rec.finish(evaluations=rec.counters["datagrams"], distinct_nontrivial=rec.distinct_n, states=n, transitions=rec.counters["api_calls"], traces=n)
